@@ -154,6 +154,7 @@ struct Ref {
       self_trans = false, stale_sub_parent_handles = false, handler_default = false, user_term = false, trans_in_depth3 = false;
   int transitions = 0, free_results = 0, top_starts = 0;
   bool replaced_handler_asked = false, replaced_default_asked = false;   // the handler consulted had replaced an earlier one
+  bool event0_delivered = false, event0_in_submachine = false, event0_transition = false, event0_handler_picked = false;
   bool negative_target_refused = false, negative_refused_route_matches = false, handler_picked_negative_state = false, negative_state_entered = false;
   bool unknown_handler_target = false, late_declared_handler_target = false; int last_unknown_call = -1;
   bool early_route_late0 = false;   // a route registered before newState(0, ...) led into the user-defined state 0
@@ -201,6 +202,7 @@ struct Ref {
   bool run(int m, int e) {
     RM &r = ms[m]; const DMach &dm = d->ms[m];
     if (!r.running) return false;
+    if (e == 0) { event0_delivered = true; if (dm.depth >= 2) event0_in_submachine = true; }
     const DState *s = dm.find(r.cur);
     bool sub_changed = false;
     if (s && s->sub >= 0) {
@@ -265,6 +267,7 @@ struct Ref {
     r.cur = target;
     if (target < 0) negative_state_entered = true;
     ++transitions;
+    if (e == 0) { event0_transition = true; if (ridx < 0) event0_handler_picked = true; }
     if (dm.depth >= 3) trans_in_depth3 = true;
     if (target == from) self_trans = true;
     if (target == 0) { term_reached = true; if (t) user_term = true; }
@@ -574,10 +577,11 @@ std::string run(const Scenario &scn, CaseInfo &info) {
     if (op.code == START || op.code == STOP || op.code == RESTART || op.code == RUN) {
       if (ncalls >= kMaxCalls) continue;
       int ev = 0;
-      if (op.code == RUN) {   // "run N" is event N for N = 1..5; every other value is folded into 1..5
-        int64_t v = op.arg(0, 1);
-        uint64_t u = v < 1 ? (uint64_t)(1 - (v + 1)) + 1 : (uint64_t)(v - 1);
-        ev = 1 + (int)(u % 5);
+      if (op.code == RUN) {
+        // "run N" is event N for N = 0..5; every other value is folded into 0..5.  Event id 0 is delivered like
+        // any other event: it equals no specific handler / route event (those are 1..4), so only the any-event
+        // handler and the any-event routes can react to it, and it goes to the active sub-machine first.
+        ev = (int)op.in(0, 0, 5);
       }
       std::string e = D.call(op.code, ev, ncalls++, false);
       if (!e.empty()) return e;
@@ -631,6 +635,10 @@ std::string run(const Scenario &scn, CaseInfo &info) {
   info.cls_if(D.dup_state, "duplicate_newState_refused");
   info.cls_if(D.init_twice, "setInitState_called_again");
   info.cls_if(D.sub_replaced, "submachine_replaced_by_second_setSubStateMachine");
+  info.cls_if(ref.event0_delivered, "event_id_0_delivered");
+  info.cls_if(ref.event0_in_submachine, "event_id_0_reached_a_submachine");
+  info.cls_if(ref.event0_transition, "event_id_0_caused_a_transition");
+  info.cls_if(ref.event0_handler_picked, "event_id_0_any_event_handler_picked_target");
   info.cls_if(D.negative_state, "state_with_negative_id_declared");
   info.cls_if(ref.negative_state_entered, "state_with_negative_id_entered");
   info.cls_if(ref.handler_picked_negative_state, "handler_picked_existing_negative_state");
@@ -790,7 +798,7 @@ SubDef def = [] {
         nc = (int)rng(nc / 2, nc);
         for (int i = 0; i < nc; ++i) {
           switch (pick({{30, RUN}, {2, STOP}, {3, RESTART}, {2, START}})) {
-            case RUN: mk(RUN, {pick({{6, 1}, {6, 2}, {2, 3}, {1, 4}, {1, 5}})}); break;
+            case RUN: mk(RUN, {pick({{2, 0}, {6, 1}, {6, 2}, {2, 3}, {1, 4}, {1, 5}})}); break;
             case STOP: mk(STOP, {}); break;
             case RESTART: mk(RESTART, {}); break;
             default: mk(START, {}); break;
